@@ -379,7 +379,13 @@ func groupOf(req plugin.Capabilities) string {
 }
 
 func groupCaps(group, root string) *plugin.Capabilities {
-	c := &plugin.Capabilities{Network: plugin.NetworkOffline, DirectFS: root == "real", RunningSystem: true}
+	// DirectFS is declared for the virtual root as well: the declaration is what enables the plugins
+	// that want host paths (containerd, and whatever uses GetRealPath), and the property quantifies
+	// over every offline plugin on both kinds of root. With Root == "" they copy the file to TMPDIR
+	// or build paths relative to the working directory; reading there is fine, only what is left
+	// created/modified/deleted counts.
+	_ = root
+	c := &plugin.Capabilities{Network: plugin.NetworkOffline, DirectFS: true, RunningSystem: true}
 	switch group {
 	case "windows":
 		c.OS = plugin.OSWindows
@@ -399,9 +405,6 @@ func scanJobs(infos []exInfo, thorough bool) []scanJob {
 			for _, in := range infos {
 				if len(in.Paths) == 0 {
 					continue
-				}
-				if root == "virtual" && in.Req.DirectFS {
-					continue // the plugin cannot run on a virtual root
 				}
 				out = append(out, scanJob{Ex: in.Name, Variant: v, Root: root, Group: groupOf(in.Req)})
 			}
